@@ -395,11 +395,23 @@ func c15WriteRenumbered(items []walItem, dir string) (int, error) {
 	cur := map[string]uint64{}      // label set -> number of its live incarnation (0: none)
 	next := uint64(0)
 	reissued := 0
+	refLset := map[uint64]labels.Labels{}
+	var implicit []record.RefSeries
 	remap := func(ref uint64) chunks.HeadSeriesRef {
-		if k, ok := refLabel[ref]; ok && cur[k] != 0 {
-			return chunks.HeadSeriesRef(cur[k])
+		k, ok := refLabel[ref]
+		if !ok {
+			return chunks.HeadSeriesRef(ref + 900_000_000) // never introduced: stays unknown
 		}
-		return chunks.HeadSeriesRef(ref + 900_000_000) // stays unknown
+		if cur[k] == 0 {
+			// Entry logged after the label set was evicted, under a ref whose series record is
+			// still in the log and carries no deletion marker of its own: after a restart the
+			// head re-creates the series from that record and keeps logging under it without
+			// a new series record. The entry starts a new incarnation.
+			next++
+			cur[k] = next
+			implicit = append(implicit, record.RefSeries{Ref: chunks.HeadSeriesRef(next), Labels: refLset[ref]})
+		}
+		return chunks.HeadSeriesRef(cur[k])
 	}
 	isMarker := func(it walItem) bool {
 		return len(it.Ivs) == 1 && it.Ivs[0].Mint == math.MinInt64 && it.Ivs[0].Maxt == math.MaxInt64
@@ -421,6 +433,7 @@ func c15WriteRenumbered(items []walItem, dir string) (int, error) {
 					reissued++
 				}
 				refLabel[it.Ref] = k
+				refLset[it.Ref] = it.L
 				if cur[k] == 0 {
 					next++
 					cur[k] = next
@@ -475,10 +488,18 @@ func c15WriteRenumbered(items []walItem, dir string) (int, error) {
 		case "tomb":
 			var out []tombstones.Stone
 			for _, it := range group {
-				out = append(out, tombstones.Stone{Ref: storage.SeriesRef(remap(it.Ref)), Intervals: it.Ivs})
-				if k, ok := refLabel[it.Ref]; ok && isMarker(it) {
-					cur[k] = 0
+				k, ok := refLabel[it.Ref]
+				if isMarker(it) {
+					if ok && cur[k] != 0 {
+						out = append(out, tombstones.Stone{Ref: storage.SeriesRef(cur[k]), Intervals: it.Ivs})
+						cur[k] = 0
+					}
+					continue
 				}
+				out = append(out, tombstones.Stone{Ref: storage.SeriesRef(remap(it.Ref)), Intervals: it.Ivs})
+			}
+			if len(out) == 0 {
+				continue
 			}
 			rec = enc.Tombstones(out, nil)
 		case "meta":
@@ -489,6 +510,12 @@ func c15WriteRenumbered(items []walItem, dir string) (int, error) {
 				out = append(out, m)
 			}
 			rec = enc.Metadata(out, nil)
+		}
+		if len(implicit) > 0 {
+			if err := wl.Log(enc.Series(implicit, nil)); err != nil {
+				return 0, err
+			}
+			implicit = implicit[:0]
 		}
 		if len(rec) > 0 {
 			if err := wl.Log(rec); err != nil {
@@ -983,8 +1010,7 @@ func TestC15Head(t *testing.T) {
 // ---- agent half: the C48 machinery with C15's non-trivial rule -------------------------
 
 func genC15Agent(t *rapid.T) c48Case {
-	c := genC48(t)
-	return c
+	return genAgent(t, true)
 }
 
 func runC15Agent(c c48Case, r *ev.Rec) error {
